@@ -612,6 +612,20 @@ func (st *v6Stats) record(t *testing.T, rep *vx.Report, env *v6Env, c v6Case, re
 	if res.Sig == "" {
 		return
 	}
+	// "honest response rejected after X": a longer sequence that contains an answer already known (from a
+	// shorter sequence, found first) to make the honest response of this request type fail is the same mechanism
+	if i := strings.Index(res.Sig, "/after="); i > 0 && strings.HasPrefix(res.Sig, "C06/honest-rejected/") {
+		for known := range st.sigCount {
+			if strings.HasPrefix(known, res.Sig[:i+len("/after=")]) {
+				x := known[i+len("/after="):]
+				for _, b := range res.Before {
+					if b == x {
+						res.Sig = known
+					}
+				}
+			}
+		}
+	}
 	st.sigCount[res.Sig]++
 	if st.sigCount[res.Sig] > 1 {
 		return
